@@ -8,10 +8,7 @@ import vcheck as vc
 
 
 def record(work, vh, cases, tag="vm", maxsteps=3000, maxnext=60):
-    cpath, tpath = work.path(tag + ".cases.ndjson"), work.path(tag + ".trace.ndjson")
-    vc.write_ndjson(cpath, cases)
-    vc.sh([vh, "vm", "-in", cpath, "-out", tpath, "-maxsteps", str(maxsteps), "-maxnext", str(maxnext)], timeout=3600)
-    return vc.read_ndjson(tpath)
+    return vc.run_restartable([vh, "vm", "-maxsteps", str(maxsteps), "-maxnext", str(maxnext)], cases, work, tag)
 
 
 def validate(work, recs, prelude, tag="vm", maxsteps=3000, timeout=1800, workers=None):
@@ -40,7 +37,11 @@ def check(report, work, vh, prelude, cases, family="vm", tag="vm", maxsteps=3000
     usable = []
     for rec in recs:
         report.count("evaluations")
-        if "panic" in rec:
+        if rec.get("hang"):
+            bump("real_hang")
+            report.violation("the run does not return and does not react to its cancelled context: %r on %s (mask=%s cancel=%s)" % (rec["src"], jqgen.unV(rec["input"]), rec.get("mask"), rec.get("cancel")),
+                             {"family": family, "case": {"src": rec["src"], "input": rec["input"], "mask": rec.get("mask") or 0, "cancel": rec.get("cancel") or 0}, "actual": {"hang": True}})
+        elif "panic" in rec:
             bump("real_panic")
             report.violation("panic: %s in %r on %s (mask=%s cancel=%s)" % (rec["panic"], rec["src"], jqgen.unV(rec["input"]), rec.get("mask", 0), rec.get("cancel", 0)),
                              {"family": family, "case": {"src": rec["src"], "input": rec["input"], "mask": rec.get("mask", 0), "cancel": rec.get("cancel", 0)},
